@@ -15,6 +15,9 @@ Line-protocol driver for C02.
   res                     NextResultCh                        → cmd:<c> | nil | block
   fin                     FinishResult                        → ok
   snap                    state snapshot
+  !obs put <c> | !obs next|wait|res nil | !obs next|wait|res cmd <c>
+                          what the real queue answered to the preceding call, judged by the
+                          FIFO specification (Spec.Fifo.seqPut/seqNext/seqRes)
   reset conc …            start the replay of an observed concurrent history; the following
   !call/!ret/!deq/!res/!fin/!end lines are judged by the FIFO specification (Spec.Fifo.Obs)
 -/
@@ -31,8 +34,8 @@ def ringAt (k base : Nat) : Ring.State :=
 
 inductive St
   | none
-  | ring (k : Nat) (σ : Ring.State)
-  | flow (σ : Flow.State)
+  | ring (k : Nat) (σ : Ring.State) (q : Spec.Fifo.Q)
+  | flow (σ : Flow.State) (q : Spec.Fifo.Q)
   | obs (o : Spec.Fifo.Obs)
 
 def digits (k : Nat) (f : Nat → Nat) : String :=
@@ -152,18 +155,37 @@ def obsStep (o : Spec.Fifo.Obs) : List String → Spec.Fifo.Obs × String
   | ["!end"] => o.fini
   | _ => (o, "bad-op")
 
+/-- `!obs` lines of the sequential suites: the real queue's answer judged by the FIFO specification -/
+def seqObs (q : Spec.Fifo.Q) : List String → Spec.Fifo.Q × String
+  | ["!obs", "put", c] => match c.toNat? with
+    | some c => Spec.Fifo.seqPut q c
+    | _ => (q, "bad-op")
+  | ["!obs", "next", "nil"] | ["!obs", "wait", "nil"] => Spec.Fifo.seqNext q Option.none
+  | ["!obs", "next", "cmd", c] | ["!obs", "wait", "cmd", c] => match c.toNat? with
+    | some c => Spec.Fifo.seqNext q (some c)
+    | _ => (q, "bad-op")
+  | ["!obs", "res", "nil"] => Spec.Fifo.seqRes q Option.none
+  | ["!obs", "res", "cmd", c] => match c.toNat? with
+    | some c => Spec.Fifo.seqRes q (some c)
+    | _ => (q, "bad-op")
+  | _ => (q, "bad-op")
+
 def step (st : St) (ws : List String) : St × String :=
   match ws with
   | ["reset", "ring", k, base] => match k.toNat?, base.toNat? with
-    | some k, some b => (.ring k (ringAt k b), s!"ok cv=2 n={2 ^ k}")
+    | some k, some b => (.ring k (ringAt k b) Spec.Fifo.empty, s!"ok cv=2 n={2 ^ k}")
     | _, _ => (st, "bad-op")
   | ["reset", "flow", k] => match k.toNat? with
-    | some k => (.flow (Flow.init (2 ^ k)), s!"ok n={2 ^ k}")
+    | some k => (.flow (Flow.init (2 ^ k)) Spec.Fifo.empty, s!"ok n={2 ^ k}")
     | _ => (st, "bad-op")
   | "reset" :: "conc" :: _ => (.obs Spec.Fifo.Obs.empty, "ok")
   | _ => match st with
-    | .ring k σ => let (σ', a) := ringStep k σ ws; (.ring k σ', a)
-    | .flow σ => let (σ', a) := flowStep σ ws; (.flow σ', a)
+    | .ring k σ q => match ws with
+      | "!obs" :: _ => let (q', a) := seqObs q ws; (.ring k σ q', a)
+      | _ => let (σ', a) := ringStep k σ ws; (.ring k σ' q, a)
+    | .flow σ q => match ws with
+      | "!obs" :: _ => let (q', a) := seqObs q ws; (.flow σ q', a)
+      | _ => let (σ', a) := flowStep σ ws; (.flow σ' q, a)
     | .obs o => let (o', a) := obsStep o ws; (.obs o', a)
     | .none => (st, "bad-op")
 
